@@ -334,7 +334,9 @@ def renderTrace (w : World) : List String :=
       | [] => [x]
       | y :: rest => if x.1 < y.1 then x :: y :: rest else y :: ins rest
     ins acc) []
-  canonDraws 'N' (canonDraws 'G' (main.filterMap showSMAction)) ++ sorted.map fun (id, r) => s!"R {id} {showReply r}"
+  canonDraws 'N' (canonDraws 'G' (main.filterMap showSMAction)) ++ sorted.map fun (id, r) =>
+    -- ids from 900000 on are requests whose caller gave up after sending: the reply goes nowhere
+    if id ≥ 900000 then s!"R {id} abandoned" else s!"R {id} {showReply r}"
 
 /-- stream `sm` -/
 def handleSM (toks : List String) : String :=
